@@ -144,7 +144,8 @@ def build(entry, rs):
         return (lambda s: D.tucker(X, rk, n_iter_max=it, init="random", random_state=s, return_errors=True)), dict(d, rank=rk)
     if entry == "tucker_randomized_svd":
         rk = [int(rs.randint(1, min(s, 3) + 1)) for s in shp]
-        return (lambda s: D.tucker(X, rk, n_iter_max=it, init="svd", svd="randomized_svd", random_state=s)), dict(d, rank=rk)
+        mk = (rs.uniform(size=X.shape) < 0.8).astype(float) if rs.rand() < 0.5 else None    # masked: the SVD is repeated inside the imputation loop
+        return (lambda s: D.tucker(X, rk, n_iter_max=it, init="svd", svd="randomized_svd", random_state=s, mask=mk)), dict(d, rank=rk, masked=mk is not None)
     if entry == "nn_tucker":
         rk = [int(rs.randint(1, min(s, 3) + 1)) for s in shp]
         return (lambda s: D.non_negative_tucker(Xp, rk, n_iter_max=it, init="random", random_state=s, return_errors=True)), dict(d, rank=rk)
@@ -180,7 +181,8 @@ def build(entry, rs):
     if entry == "randomized_svd":
         M = rs.standard_normal((int(rs.randint(2, 9)), int(rs.randint(2, 9))))
         k = int(rs.randint(1, 5))
-        return (lambda s: svd_interface(M, method="randomized_svd", n_eigenvecs=k, random_state=s)), dict(d, shape=list(M.shape), rank=k)
+        mk = (rs.uniform(size=M.shape) < 0.8).astype(float) if rs.rand() < 0.5 else None
+        return (lambda s: svd_interface(M, method="randomized_svd", n_eigenvecs=k, random_state=s, mask=mk)), dict(d, shape=list(M.shape), rank=k, masked=mk is not None)
     if entry == "sample_khatri_rao":
         mats = [rs.standard_normal((int(rs.randint(2, 6)), Rk)) for _ in range(int(rs.randint(2, 4)))]
         return (lambda s: D.sample_khatri_rao(mats, 7, random_state=s, return_sampled_rows=True)), dict(d, shape=[list(m.shape) for m in mats])
@@ -189,6 +191,10 @@ def build(entry, rs):
         fsh = gen.shape(rs, 2, 2, 4)
         Xr = rs.standard_normal([n] + fsh)
         y = rs.standard_normal(n)
+        if entry == "cp_regressor" and rs.rand() < 0.5:
+            y = rs.standard_normal([n] + gen.shape(rs, int(rs.randint(1, 3)), 1, 3))   # tensor-valued response: more factors to initialise
+        elif entry == "cp_plsr" and rs.rand() < 0.5:
+            y = rs.standard_normal((n, int(rs.randint(1, 4))))
         if entry == "cp_regressor":
             def f(s):
                 e = CPRegressor(weight_rank=Rk, n_iter_max=it, random_state=s, verbose=0).fit(Xr, y)
